@@ -176,6 +176,11 @@ def run(tier, seed):
                 "name p\nversion 1.0\nint array A =\n    1, 2,\n", "name p\nversion 1.0\nOp({p) | 0\n", "name p\nversion 1.0\nOp(sin 1) | 0\n",
                 "name p\nversion 1.0\ntarget\nOp | 0\n", "name p\nversion 1\nOp | 0\n", "name 1p\nversion 1.0\n", "name p\nversion 1.0\n$\n",
                 "name p\nversion 1.0\nOp(a=) | 0\n", "name p\nversion 1.0\nOp(a=1, 2) | 0\n", "name p\nversion 1.0\ninclude x\n"]
+        # characters the grammar has no token for, visible or not, at the very start of the text and elsewhere (byte order mark,
+        # zero-width space, no-break space, soft hyphen): the text is not a sentence
+        ok_script = "name p\nversion 1.0\nOp(1) | 0\n"
+        for ch in ["\ufeff", "\u200b", "\xa0", "\xad", "\u2060", "\x00", "\x7f"]:
+            hand += [ch + ok_script, ch + "# header\n\n" + ok_script, ok_script.replace("version", ch + "version"), ok_script.replace("Op(1)", "Op(" + ch + "1)"), ok_script + ch]
         cases += [("hand", h) for h in hand]
         nshown = 0
         for tag, text in cases:
